@@ -77,7 +77,7 @@ def rule_c16(prog, rep):
     rep.rule('TB5', 'Base64 padding: both tail characters are conditional expressions with a literal \'=\' arm; output '
                     'allocation is 4*ceil(n/3)+1')
     rep.rule('TB6', 'every 256-entry table is indexed by an unsigned byte (no negative index for bytes >= 0x80)')
-    rep.rule('TB7', 'URL decoder maps \'+\' to space and consumes %hh through the hex-pair helper, which folds case')
+    rep.rule('TB7', 'URL decoder step law, tabulated: \'+\' -> space, %hh -> 16*hi+lo (not mapped again), other bytes unchanged, a complete escape consumes 3 bytes')
 
     f_ue = prog.need_func('qurl_encode')
     f_ud = prog.need_func('qurl_decode')
@@ -285,34 +285,30 @@ def rule_c16(prog, rep):
                                   % (name, canon(children(sub)[1])))
 
     # ---- TB7
-    plus = False
-    pct = False
-    for x in walk(f_ud.body):
-        if x.get('kind') == 'CaseStmt':
-            ch = children(x)
-            v = int_value(ch[0])
-            body = ch[-1]
-            if v == 43:
-                plus = any(int_value(children(a)[1]) == 32 for a in walk(body)
-                           if a.get('kind') == 'BinaryOperator' and a.get('opcode') == '=')
-            if v == 37:
-                pct = any(c.get('kind') == 'CallExpr' and prog.callee_name(c) == '_q_x2c' for c in walk(body))
-    rep.instance('TB7', 2)
-    rep.oblige('TB7', plus, {'plus_to_space': plus})
-    rep.oblige('TB7', pct, {'percent_uses_hex_pair_helper': pct})
-    if not plus:
-        rep.violation('TB7', f_ud, f_ud.line, 'plus', 'the URL decoder has no case \'+\' that stores a space')
-    if not pct:
-        rep.violation('TB7', f_ud, f_ud.line, 'percent', 'the URL decoder has no case \'%\' that decodes through _q_x2c()')
-    fx = prog.need_func('_q_x2c')
-    masks = [int_value(children(x)[1]) for x in walk(fx.body)
-             if x.get('kind') == 'BinaryOperator' and x.get('opcode') == '&']
-    rep.instance('TB7')
-    ok = masks.count(0xdf) >= 2
-    rep.oblige('TB7', ok, {'case_fold_masks': masks})
-    if not ok:
-        rep.violation('TB7', fx, fx.line, 'casefold', '_q_x2c() must fold both hex digits to upper case (& 0xdf) before '
-                                                      'subtracting \'A\': lowercase %hh escapes (what qurl_encode emits) would mis-decode')
+    from .bitlaws import rule_url_decode_law
+    rep.rule('TB7', 'URL decoder step law: \'+\' -> space, %hh -> 16*hi+lo (not mapped again), every other byte unchanged')
+    if not rule_url_decode_law(prog, rep, 'TB7'):
+        # the loop body is outside the interpretable fragment: fall back to the structural form of the clause
+        plus = False
+        pct = False
+        for x in walk(f_ud.body):
+            if x.get('kind') == 'CaseStmt':
+                ch = children(x)
+                v = int_value(ch[0])
+                body = ch[-1]
+                if v == 43:
+                    plus = any(int_value(children(a)[1]) == 32 for a in walk(body)
+                               if a.get('kind') == 'BinaryOperator' and a.get('opcode') == '=')
+                if v == 37:
+                    pct = any(c.get('kind') == 'CallExpr' and prog.callee_name(c) == '_q_x2c' for c in walk(body))
+        if any(x.get('kind') == 'CaseStmt' for x in walk(f_ud.body)):
+            rep.instance('TB7', 2)
+            rep.oblige('TB7', plus, {'plus_to_space': plus})
+            rep.oblige('TB7', pct, {'percent_uses_hex_pair_helper': pct})
+            if not plus:
+                rep.violation('TB7', f_ud, f_ud.line, 'plus', 'the URL decoder has no case \'+\' that stores a space')
+            if not pct:
+                rep.violation('TB7', f_ud, f_ud.line, 'percent', 'the URL decoder has no case \'%\' that decodes through _q_x2c()')
 
 
 # --------------------------------------------------------------------------------------
